@@ -324,6 +324,18 @@ func checkErrStream(c ErrStreamCase, cv *cov) *evid.Violation {
 			return evid.Failf("BufferReader %s: the source failed with a %T; errors.As on the returned error %q (%T) does not find it", c.Fn, injected, err, err)
 		}
 	}
+	// the caller hands its own failure to Release and goes on reading what is still buffered: the read
+	// that then runs out of data still fails because of the source, and must keep matching the source error
+	_ = br.Release(errors.New("the caller's own failure, passed to Release"))
+	r3 := thrift.NewBufferReader(br)
+	var err3 error
+	for k := 0; k <= len(b) && err3 == nil; k++ {
+		_, err3 = r3.ReadByte()
+	}
+	r3.Recycle()
+	if err3 == nil || !errors.Is(err3, injected) {
+		return evid.Failf("BufferReader %s failed with the source error %q; after Release(<another error>) on the bufiox reader, the ReadByte that ran out of data returned %v (%T), which does not match the source error", c.Fn, injected, err3, err3)
+	}
 	cv.nontrivial = sr.Plan.ErrKind != 0 || sr.Plan.ErrAt > 0
 	cv.label("fn_" + c.Fn)
 	cv.label(fmt.Sprintf("errkind_%d", sr.Plan.ErrKind))
